@@ -280,6 +280,8 @@ func (p *Parser) ParseFile(filename string) (*Dictionary, error) {
 	return p.Parse(f)
 }
 
+const maxInt = int(^uint(0) >> 1)
+
 func parseOID(s string) OID {
 	var o OID
 	for i, ch := range s {
@@ -293,8 +295,12 @@ func parseOID(s string) OID {
 			if i == 0 {
 				o = append(o, 0)
 			}
-			o[len(o)-1] *= 10
-			o[len(o)-1] += int(ch - '0')
+			d := int(ch - '0')
+			if o[len(o)-1] > (maxInt-d)/10 {
+				// the component does not fit an int
+				return nil
+			}
+			o[len(o)-1] = o[len(o)-1]*10 + d
 		default:
 			return nil
 		}
